@@ -165,12 +165,14 @@ Qed.
 Print Assumptions C16_compile_wf_large_before_fix.
 
 (* ---------- the compiler's output is well formed: code with jumps ---------- *)
-(* Fragment pfrag: a top-level sequence of declarations `x := e` and of
-   statements of the control-flow fragment cfrag — assignments `x = e` to
-   globals, if / else-if / else chains, while, break, `for range …` over step
-   ranges and over iterables WITHOUT a loop variable, arbitrarily nested, with
-   all expressions in the expression fragment efrag (so: no declarations inside
-   blocks, no loop variables, no arrays/maps/index/slice — _partial).  For
+(* Fragment pfrag2: a top-level sequence of declarations `x := e`, of
+   `for x := range …` loops WITH a loop variable (step ranges and iterables;
+   at top level the compiler makes x a global), and of statements of the
+   control-flow fragment cfrag — assignments `x = e` to globals, if / else-if /
+   else chains, while, break, `for range …` WITHOUT a loop variable —
+   arbitrarily nested, with all expressions in the expression fragment efrag
+   (so: no declarations and no loop variables INSIDE blocks, i.e. LocalCount
+   = 0, and no arrays/maps/index/slice — _partial).  For
    every such program: if the compiler succeeds and leaves no pending break
    (a break outside a loop, which the parser rejects), its output satisfies
    WF — every jump operand the compiler back-patches (condition exits, end-of-if
@@ -179,17 +181,17 @@ Print Assumptions C16_compile_wf_large_before_fix.
    range loops).  No size guard: out-of-range operands and jump targets are
    compile errors at HEAD (e351c68). *)
 Theorem C16_compile_wf_ctl_partial : forall (p : slist) (st : cstate),
-  pfrag p = true -> compile p = COk st -> cbreaks st = [] ->
+  pfrag2 p = true -> compile p = COk st -> cbreaks st = [] ->
   WF {| bcode := out_code (bytecode_of st); nconsts := N.of_nat (List.length (out_consts (bytecode_of st)));
         gcount := out_gcount (bytecode_of st); lcount := out_lcount (bytecode_of st) |}.
-Proof. exact compile_wf_ctl. Qed.
+Proof. exact compile_wf_ctl2. Qed.
 Print Assumptions C16_compile_wf_ctl_partial.
 
 (* … hence C17's VM-safety theorem applies to everything the compiler
    produces for the fragment: no stack underflow, no out-of-range operand, no
    fetch off an instruction boundary, sp = LocalCount at the end. *)
 Theorem C16_compile_vm_safe_ctl_partial : forall (p : slist) (st : cstate),
-  pfrag p = true -> compile p = COk st -> cbreaks st = [] ->
+  pfrag2 p = true -> compile p = COk st -> cbreaks st = [] ->
   let prog := program_of (bytecode_of st) in
   forall s, reachable prog s ->
     (plcount prog <= sp_of s)%N /\
@@ -201,7 +203,7 @@ Theorem C16_compile_vm_safe_ctl_partial : forall (p : slist) (st : cstate),
 Proof.
   intros p st HF HC HB prog. apply wf_vm_safe_partial.
   unfold prog, info_of, program_of. cbn [pcode pconsts pgcount plcount]. rewrite map_length.
-  apply (compile_wf_ctl p st HF HC HB).
+  apply (compile_wf_ctl2 p st HF HC HB).
 Qed.
 Print Assumptions C16_compile_vm_safe_ctl_partial.
 
@@ -216,7 +218,10 @@ Definition ex_ctl : slist :=
                              (SCons (SForIter None TStr (EVar (s_ "s"))
                                        (SCons (SIf (EBool false) (SCons SBreak SNil) CNil NoElse) SNil)) SNil) CNil)
                       (Else (SCons (SForStep None ONoneE (ENum (float_of_Z 2)) ONoneE
-                                      (SCons (SAssign (EVar (s_ "x")) (EBin BPlus TNum TNum (EVar (s_ "x")) (ENum (float_of_Z 0)))) SNil)) SNil))) SNil))) SNil)).
+                                      (SCons (SAssign (EVar (s_ "x")) (EBin BPlus TNum TNum (EVar (s_ "x")) (ENum (float_of_Z 0)))) SNil)) SNil))) SNil)))
+ (SCons (SForStep (Some (s_ "i")) ONoneE (ENum (float_of_Z 3)) ONoneE
+          (SCons (SIf (EBin BEq TNum TNum (EVar (s_ "i")) (ENum (float_of_Z 2))) (SCons SBreak SNil) CNil NoElse)
+          (SCons (SAssign (EVar (s_ "x")) (EBin BPlus TNum TNum (EVar (s_ "x")) (EVar (s_ "i")))) SNil))) SNil))).
 
 (* x := 0; s := 0; while x < 5: x = x + 1; if x % 2 == 1: s = s + x else s = s - 1 end end *)
 Definition ex_sem : slist :=
@@ -245,14 +250,14 @@ Example C16_ex_sem_defined :
 Proof. vm_compute. repeat split; try reflexivity. discriminate. Qed.
 
 Example C16_ex_ctl_fragment :
-  pfrag ex_ctl = true /\
+  pfrag2 ex_ctl = true /\
   match compile ex_ctl with
   | COk st => cbreaks st = [] /\
       (let bc := bytecode_of st in
        wf_check {| bcode := out_code bc; nconsts := N.of_nat (List.length (out_consts bc));
                    gcount := out_gcount bc; lcount := out_lcount bc |} = true) /\
       match vm_run 2000 (program_of (bytecode_of st)) (vm_init (program_of (bytecode_of st))) with
-      | FHalted s => nth_error (globals s) 0 = Some (VNum (float_of_Z 4))
+      | FHalted s => nth_error (globals s) 0 = Some (VNum (float_of_Z 5))
       | _ => False
       end
   | CErr _ => False
